@@ -118,19 +118,12 @@ func (s *tunnelServer) serve(tunnelMetadata metadata.MD) error {
 // itself is still valid for subsequent RPCs. This will be the case, for example, if the requested
 // method name is not implemented by the server.
 func (s *tunnelServer) createStream(ctx context.Context, streamID int64, frame *tunnelpb.NewStream) (bool, error) {
-	if s.isClosing() {
-		return true, status.Errorf(codes.Unavailable, "server is shutting down")
-	}
-
-	if frame.ProtocolRevision != tunnelpb.ProtocolRevision_REVISION_ZERO &&
-		frame.ProtocolRevision != tunnelpb.ProtocolRevision_REVISION_ONE {
-		return true, status.Errorf(codes.Unavailable, "server does not support protocol revision %d", frame.ProtocolRevision)
-	}
-	noFlowControl := frame.ProtocolRevision == tunnelpb.ProtocolRevision_REVISION_ZERO
-
 	s.mu.Lock()
 	defer s.mu.Unlock()
 
+	// Record the stream ID first, even if we end up rejecting the stream
+	// below. The client may already have sent more frames for it, which
+	// must then be recognized as frames for a disposed stream.
 	_, ok := s.streams[streamID]
 	if ok {
 		// stream already active!
@@ -140,6 +133,16 @@ func (s *tunnelServer) createStream(ctx context.Context, streamID int64, frame *
 		return false, fmt.Errorf("cannot create stream ID %d: that ID has already been used", streamID)
 	}
 	s.lastSeen = streamID
+
+	if s.isClosing() {
+		return true, status.Errorf(codes.Unavailable, "server is shutting down")
+	}
+
+	if frame.ProtocolRevision != tunnelpb.ProtocolRevision_REVISION_ZERO &&
+		frame.ProtocolRevision != tunnelpb.ProtocolRevision_REVISION_ONE {
+		return true, status.Errorf(codes.Unavailable, "server does not support protocol revision %d", frame.ProtocolRevision)
+	}
+	noFlowControl := frame.ProtocolRevision == tunnelpb.ProtocolRevision_REVISION_ZERO
 
 	if frame.MethodName[0] == '/' {
 		frame.MethodName = frame.MethodName[1:]
